@@ -161,7 +161,10 @@ class Table:
         return names
 
     def tokens(self):
-        return sorted(self.all_names())
+        t = getattr(self, '_tokens', None)
+        if t is None:
+            t = self._tokens = sorted(self.all_names())
+        return t
 
 
 class ModelInvalid(Exception):
@@ -170,6 +173,10 @@ class ModelInvalid(Exception):
 
 class ModelAmbiguous(Exception):
     pass
+
+
+class ModelOverflow(ModelInvalid):
+    """grammatical, but some partial result leaves the comfortable float range"""
 
 
 SI = Table()
@@ -227,15 +234,17 @@ def parse(s, table=SI):
         try:
             fval = (float(num) if num else 1.) * uval ** (int(power) if power.denominator == 1 else float(power))
         except OverflowError:
-            raise ModelInvalid('overflow')
+            raise ModelOverflow('overflow')
         if not 1e-280 < abs(fval) < 1e280 or (value != 0 and not 1e-280 < abs(value) < 1e280):
-            raise ModelInvalid('overflow')
+            raise ModelOverflow('overflow')
         if op == '*':
             value = value * fval
             v = vmul(v, vpow(uvec, power))
         else:
             value = value / fval
             v = vdiv(v, vpow(uvec, power))
+        if value != 0 and not 1e-280 < abs(value) < 1e280:
+            raise ModelOverflow('overflow')
     return value, v
 
 
